@@ -50,6 +50,8 @@ const (
 	DevNoOK    = "no-ok"    // write memory without [OK]
 	DevExit1   = "exit1"    // Linux: silent non-zero exit status
 	DevBanner  = "banner"   // IOS reload banner (see BannerSpec)
+	DevWarnErr = "warn+error" // ASA: the benign warning this command class can produce, followed by the error text
+	DevInfoErr = "info+error" // ASA: an INFO: line followed by the error text
 )
 
 type BannerSpec struct {
@@ -424,6 +426,24 @@ func (s *SSH) execCisco(l, class, dev string) {
 	if dev == DevError {
 		s.rec(l, class, dev, false)
 		s.answer(l, s.errText())
+		return
+	}
+	if dev == DevWarnErr || dev == DevInfoErr {
+		s.rec(l, class, dev, false)
+		pre := "INFO: Security level for this interface is unchanged"
+		if dev == DevWarnErr {
+			switch {
+			case strings.HasPrefix(l, "access-list"), strings.HasPrefix(l, "no access-list"):
+				pre = "WARNING: Same object-group is used more than once in one config line. This config is redundant. MAC would not be expanded."
+			case strings.HasPrefix(l, "crypto map"), strings.HasPrefix(l, "no crypto map"):
+				pre = "WARNING: The crypto map entry is incomplete!"
+			case strings.HasPrefix(l, "tunnel-group"):
+				pre = "WARNING: L2L tunnel-groups that have names which are not an IP\naddress may only be used if the tunnel authentication\nmethod is Digital Certificates and/or The peer is\nconfigured to use Aggressive Mode"
+			default:
+				pre = "WARNING: this command has been deprecated"
+			}
+		}
+		s.answer(l, pre+"\n"+s.errText())
 		return
 	}
 	if dev == DevGarbage {
